@@ -35,7 +35,7 @@ ASSUMPTIONS = [
     'virtual children are bound to real child processes by the byte-level conformance cases of C07',
 ]
 BOUND = {
-    'quick': 'k=2 children: preemption bound 2 (1 with 8-byte pipes), N in 1..3, 3 collectors, 2 pipe capacities, 4 script pairs (two with a spawn failure: last / first layer); k=3: bound 0, N in 1..4 (bound 1 for the start-dependency script at N=2,3); worlds: 6 shapes x <=1 outcome (10 kinds incl. fd-2 noise, a failing id with FF/LS/NEL/FS/VT and output lines starting with a dot) x -j1..-j4 x -v0..2, and --shuffle under -j2/-j3 against the sequential order x -j1..-j4 x -v0..2',
+    'quick': 'k=2 children: preemption bound 2 (1 with 8-byte pipes), N in 1..3, 3 collectors, 2 pipe capacities, 4 script pairs (two with a spawn failure: last / first layer); k=3: bound 1, N in 1..4, 3 script triples; worlds: 6 shapes x <=1 outcome (10 kinds incl. fd-2 noise, a failing id with FF/LS/NEL/FS/VT and output lines starting with a dot) x -j1..-j4 x -v0..2, and --shuffle under -j2/-j3 against the sequential order x -j1..-j4 x -v0..2',
     'thorough': 'k=2: preemption bound 3 (2 with 8-byte pipes); k=3: bound 2; k=4: bound 1, N in 2..5; worlds with <=2 outcomes',
 }
 CHUNK = 1
@@ -104,8 +104,6 @@ def configs(tier):
                 continue          # the dependency needs two children alive
             for v in (0, 2):
                 b = b3
-                if tier == 'quick' and not (ti == 1 and v == 0 and N in (2, 3)):
-                    b = 0
                 out.append({'k': 3, 'scripts': sc, 'N': N, 'v': v, 'cap': 64, 'bound': b, 'id': 'k3t%d' % ti})
     if tier == 'thorough':
         quad = {'La': script(b'La', REPORT_A, wait='Ld'), 'Lb': script(b'Lb', REPORT_C, dots=False),
